@@ -257,7 +257,8 @@ def __order_clauses(c: Formula) -> int:
     if isinstance(c, And) or isinstance(c, Or):
         return 0
     elif isinstance(c, Not):
-        return c.c
+        # A negated compound (before De Morgan has been applied to it) sorts like a compound.
+        return c.c if isinstance(c.c, int) else 0
     else:
         return c
 
